@@ -68,7 +68,7 @@ Roll(doc) ==
 BuiltPosting(n, f, t) ==
     LET r == Roll(Batch[n + 1])
         e == r.tfs[f][CHOOSE j \in DOMAIN r.tfs[f] : r.tfs[f][j].term = t]
-    IN [doc |-> n, freq |-> e.freq, norm |-> NormOf[<<f, r.lens[f]>>], locs |-> e.locs]
+    IN [doc |-> n, freq |-> e.freq, norm |-> NormAt(f, r.lens[f]), locs |-> e.locs]
 
 Init == b \in DOMAIN Catalogue
 Next == UNCHANGED vars
